@@ -462,6 +462,14 @@ func (m *Manager) TerminateSession(ctx context.Context, sessionID string, reason
 		return fmt.Errorf("session not found: %s", sessionID)
 	}
 
+	// Another caller is between this point and the removal below: it releases the
+	// addresses and emits the terminate event; doing that a second time would release
+	// an address that may already belong to another session
+	if session.State == StateTerminating {
+		m.mu.Unlock()
+		return fmt.Errorf("session already terminating: %s", sessionID)
+	}
+
 	oldState := session.State
 	session.State = StateTerminating
 	session.StateReason = string(reason)
